@@ -125,8 +125,8 @@ func VP_C07_live_takeover() {
 	}
 }
 
-//vp:property C01 C07
-//vp:bounds legacy transport: RDG_OUT_DATA, then an RDG_IN_DATA request whose client is slow to send its first bytes; while the gateway waits for them (Drain) or for the first / second packet, a SECOND RDG_IN_DATA request with the same connection id arrives and sends a complete set-up sequence; then the first connection sends its complete set-up sequence too
+//vp:property C01 C07 C09
+//vp:bounds legacy transport: RDG_OUT_DATA, then an RDG_IN_DATA request whose client is slow to send its first bytes; while the gateway takes that connection over from the http server (hijack), waits for the first bytes (Drain) or for the first / second packet, a SECOND RDG_IN_DATA request with the same connection id arrives and sends a complete set-up sequence; then the first connection sends its complete set-up sequence too
 //vp:assume one cooperative schedule per arrival point; hosts reachable
 //vp:reach ended
 func VP_C01_legacy_second_in() {
@@ -140,7 +140,7 @@ func VP_C01_legacy_second_in() {
 	vpAssume(!vpBool("dialfail1"))
 	vpAssume(!vpBool("dialfail2"))
 	out, in1, in2 := &vpTransport{}, vpScript(4, 0), vpScript(4, 0)
-	at := vpIntRange("second-in-arrives-at", -1, 1) // -1: while the first waits for its first bytes; 0/1: before its first/second packet
+	at := vpIntRange("second-in-arrives-at", -2, 1) // -2: while the first connection is being hijacked; -1: while the first waits for its first bytes; 0/1: before its first/second packet
 	served := false
 	second := func() {
 		if !served {
@@ -159,7 +159,11 @@ func VP_C01_legacy_second_in() {
 		return inner(i)
 	}
 	g.HandleGatewayProtocol(&vpHTTPW{hdr: http.Header{}, tr: out}, mk(MethodRDGOUT))
-	g.HandleGatewayProtocol(&vpHTTPW{hdr: http.Header{}, tr: in1}, mk(MethodRDGIN))
+	w1 := &vpHTTPW{hdr: http.Header{}, tr: in1}
+	if at == -2 {
+		w1.onHijack = second
+	}
+	g.HandleGatewayProtocol(w1, mk(MethodRDGIN))
 	vpDropTasks()
 	vpReach("ended")
 	vpObserve("dials", uint64(len(vpDialLog)))
@@ -174,4 +178,71 @@ func VP_C01_legacy_second_in() {
 	}
 	vpAssert(nOK <= 4, "only-one-inbound-connections-sequence-is-answered")
 	vpAssert(in1.pos == 0 || in2.pos == 0, "only-one-inbound-connection-is-read-from")
+}
+
+//vp:property C04 C07
+//vp:bounds one legacy tunnel whose two requests come from different addresses: RDG_OUT_DATA from 10.0.0.1 (identity "first"), RDG_IN_DATA — the connection that carries the packets and with them the token — from 10.0.0.2 (identity "second"), same connection id; full set-up sequence; also the websocket transport (one request) for comparison
+//vp:assume the callbacks record the identity they find in their context (that is where the security package's session check reads the presenting client's address); hosts reachable
+//vp:reach token-presented host-checked
+func VP_C04_legacy_presenting_identity() {
+	vpResetHandlers()
+	g := &Gateway{}
+	idOut, idIn := vpUser(), vpUser()
+	idOut.SetUserName("first")
+	idIn.SetUserName("second")
+	idIn.SetAttribute(identity.AttrClientIp, "10.0.0.2")
+	idIn.SetAttribute(identity.AttrRemoteAddr, "10.0.0.2:4321")
+	var cookieFrom, hostFrom, authFrom []string
+	addrOf := func(ctx context.Context) string {
+		id := identity.FromCtx(ctx)
+		if id == nil {
+			return "<none>"
+		}
+		s, _ := id.GetAttribute(identity.AttrClientIp).(string)
+		return id.UserName() + "@" + s
+	}
+	g.CheckPAACookie = func(ctx context.Context, cookie string) (bool, error) {
+		cookieFrom = append(cookieFrom, addrOf(ctx))
+		return true, nil
+	}
+	g.CheckClientName = func(ctx context.Context, name string) (bool, error) {
+		authFrom = append(authFrom, addrOf(ctx))
+		return true, nil
+	}
+	g.CheckHost = func(ctx context.Context, host string) (bool, error) {
+		hostFrom = append(hostFrom, addrOf(ctx))
+		return true, nil
+	}
+	vpAssume(!vpBool("dialfail1"))
+	mk := func(id identity.Identity, method string, ws bool) *http.Request {
+		hdr := http.Header{"Rdg-Connection-Id": {"conn-1"}}
+		if ws {
+			hdr["Connection"] = []string{"upgrade"}
+			hdr["Upgrade"] = []string{"websocket"}
+		}
+		return identity.AddToRequestCtx(id, &http.Request{Method: method, Header: hdr})
+	}
+	in := vpScript(4, 0)
+	if vpBool("websocket-transport") {
+		vpNextTransportFor(in)
+		g.HandleGatewayProtocol(&vpHTTPW{hdr: http.Header{}}, mk(idIn, MethodRDGOUT, true))
+	} else {
+		g.HandleGatewayProtocol(&vpHTTPW{hdr: http.Header{}, tr: &vpTransport{}}, mk(idOut, MethodRDGOUT, false))
+		g.HandleGatewayProtocol(&vpHTTPW{hdr: http.Header{}, tr: in}, mk(idIn, MethodRDGIN, false))
+	}
+	vpDropTasks()
+	vpObserve("cookie-checks", uint64(len(cookieFrom)))
+	vpObserve("host-checks", uint64(len(hostFrom)))
+	vpAssert(len(cookieFrom) == 1 && len(hostFrom) == 1 && len(authFrom) == 1, "each-callback-runs-once-for-the-sequence")
+	for _, a := range cookieFrom {
+		vpReach("token-presented")
+		vpAssert(a == "second@10.0.0.2", "token-check-sees-the-client-that-presents-the-token")
+	}
+	for _, a := range authFrom {
+		vpAssert(a == "second@10.0.0.2", "client-name-check-sees-the-client-that-presents-the-token")
+	}
+	for _, a := range hostFrom {
+		vpReach("host-checked")
+		vpAssert(a == "second@10.0.0.2", "host-check-sees-the-client-that-presents-the-token")
+	}
 }
